@@ -83,3 +83,24 @@ package db
 //@     invariant 0 <= i && i <= len(todo)
 //@     invariant updatedAliases != nil
 //@     invariant @C11,C01,C09 plan(S, strat, arr(todo), len(todo), i, seq(changes), keys(updatedAliases)) == plan(S, strat, entry(arr(todo)), entry(len(todo)), 0, entry(seq(changes)), entry(keys(updatedAliases)))
+
+// GenerateArtifacts: the entity's stored key or request is reused; the issuer context handed to signing is the
+// issuer's current artifact (private key, subject-public-key bits, and its certificate's SUBJECT as issuer DN), or
+// the entity's own for roots; the new artifact carries the signed certificate, the context's key and the stored request.
+//@ func GenerateArtifacts returns (art, err)
+//@   props C01 C14 C20
+//@   uses db.smt2 x509.smt2 keys.smt2
+//@   let S = DbState(backend)
+//@   let CFG = typed(dbCfg(S, alias), "*gopki/generator/config.CertificateContent")
+//@   let SART = typed(dbArt(S, alias), "*gopki/generator/db.BuildArtifact")
+//@   let IART = typed(dbArt(S, CFG.Issuer), "*gopki/generator/db.BuildArtifact")
+//@   let CTX = typed(callres("gopki/generator.BuildCertBody", 1, 0), "*gopki/generator/cert.CertificateContext")
+//@   let SIGN = "gopki/generator.SignCertBody"
+//@   atcall @C01 gopki/generator.SignCertBody CFG.Issuer != "" ==> CTX.Issuer.IssuerDn == old(IART.Certificate.TBSCertificate.Subject) && CTX.Issuer.PublicKeyRaw == old(IART.Certificate.TBSCertificate.PublicKey.PublicKey.Bytes) && CTX.Issuer.PrivateKey == old(IART.PrivateKey)
+//@   atcall @C01 gopki/generator.SignCertBody CFG.Issuer == "" ==> CTX.Issuer.IssuerDn == CTX.TbsCertificate.Subject && CTX.Issuer.PublicKeyRaw == CTX.TbsCertificate.PublicKey.PublicKey.Bytes && CTX.Issuer.PrivateKey == CTX.PrivateKey
+//@   atcall @C14 gopki/generator.BuildCertBody dbArt(S, alias) != 0 ==> prk == old(SART.PrivateKey) && req == old(SART.Request)
+//@   atcall @C14 gopki/generator.BuildCertBody dbArt(S, alias) == 0 ==> prk == nil && req == nil
+//@   ensures !called("gopki/generator.SignCertBody", 1) ==> err != nil
+//@   ensures err != nil ==> art == nil
+//@   ensures @C01,C14 called("gopki/generator.SignCertBody", 1) ==> err == nil ==> art != nil && fresh(art) && art.Certificate == callres("gopki/generator.SignCertBody", 1, 0) && art.Certificate != nil && art.PrivateKey == CTX.PrivateKey
+//@   ensures @C14 called("gopki/generator.SignCertBody", 1) ==> err == nil ==> art.Request == (if dbArt(S, alias) != 0 then old(SART.Request) else nil)
